@@ -19,7 +19,7 @@ MON = {"toc", "reopen"}
 
 
 def units(tier, seed):
-    return CC.make_units(tier, seed, 700, 48000)
+    return CC.make_units(tier, seed, 700, 16000)
 
 
 def run_unit(u, acc):
